@@ -107,11 +107,11 @@ def run(spec):
   sp = case.space
   viol = []
   dc = 0
-  cls = ['geos:%d' % len(sp.geos)]
+  cls = ['history:%s' % spec.get('history'), 'geos:%d' % len(sp.geos)]
   det = L.describe(case)
   most = 0
   for method in ('exhaustive_search', 'greedy_search'):
-    res = L.run_search(case, method)
+    res = L.run_search(case, method, history=spec.get('history'))
     tag = method.split('_')[0]
     if res[0] != 'ok':
       cls.append('%s:%s' % (tag, res[0]))
